@@ -33,6 +33,7 @@ func refcountHistory(depth int) func() {
 		})
 		hist := []string{fmt.Sprintf("config{ctx=%v keep=%v first=%d}", cur != nil, keep, first)}
 		var refs [2]*refcount.Ref[int]
+		var stale *refcount.Ref[int] // the handle released most recently
 		held := func() []int {
 			var h []int
 			for j, r := range refs {
@@ -71,6 +72,7 @@ func refcountHistory(depth int) func() {
 					vsched.CtrAdd(rcHeld, -1)
 					vsched.CtrSet(rcRefHeld+j, 0)
 					refs[j].Release()
+					stale = refs[j]
 					refs[j] = nil
 				} else {
 					hist = append(hist, fmt.Sprintf("AddRef(#%d)", j))
@@ -108,7 +110,13 @@ func refcountHistory(depth int) func() {
 				vsched.CtrSet(rcInv0+n, 1)
 				f()
 			case 7:
-				// an extra Release on a reference already released is a no-op
+				// an extra Release on a reference already released is a no-op - also when it comes late,
+				// after other references have been added
+				if stale != nil {
+					hist = append(hist, "Release(again, the handle released last)")
+					stale.Release()
+					break
+				}
 				hist = append(hist, "AddRef(nil cb);Release;Release")
 				r := e.rc.AddRef(nil)
 				r.Release()
@@ -137,7 +145,7 @@ func refcountHistory(depth int) func() {
 }
 
 func init() {
-	doc := "RefCount: every sequence of %d operations over {AddRef/Release #0, AddRef/Release #1, SetContext(c1|c2|nil|same), released() of the latest resolver call, AddRef(nil);Release;Release} x initial context {nil,c1} x keep-unreferenced {f,t} x first resolver outcome {value, error, error+value+release, zero value+release}; settled after every operation: SetContext's result, latest-result-delivered, invalidated-means-released and release-exactly-once are checked in every state"
+	doc := "RefCount: every sequence of %d operations over {AddRef/Release #0, AddRef/Release #1, SetContext(c1|c2|nil|same), released() of the latest resolver call, AddRef(nil);Release;Release / a late repeated Release of the handle released last} x initial context {nil,c1} x keep-unreferenced {f,t} x first resolver outcome {value, error, error+value+release, zero value+release}; settled after every operation: SetContext's result, latest-result-delivered, invalidated-means-released and release-exactly-once are checked in every state"
 	eng.Register(&eng.Scenario{
 		Name: "refcount-history", Props: []string{"C09", "C08"}, QuickOnly: true, Det: true, NoRace: true, MustFinish: true, ObsNames: stdObs,
 		Doc:   fmt.Sprintf(doc, 5),
